@@ -5,6 +5,7 @@ import itertools
 from .. import env, hyp, optable as O, ed25519_ref as E
 from .c02 import msg_of, push, run
 from hypothesis import strategies as st
+from ..gen import dict_order as gen_dict_order
 from nacl.signing import SigningKey
 
 F, T = env.F, env.T
@@ -214,6 +215,7 @@ def cases(draw):
     m = draw(st.one_of(st.integers(0, n), st.integers(0, n), st.just(n), st.just(n + 1)))
     allowed = draw(st.sampled_from([0, 0, 1, 3, 0x81, 0xff]))
     fields = {'sigfield%d' % i: draw(st.binary(min_size=1, max_size=6)) for i in range(1, 9) if draw(st.booleans())}
+    fields = gen_dict_order(draw, fields)
     mode = draw(st.sampled_from(['honest', 'honest', 'mixed', 'mixed', 'dupes']))
     items = []
     signers = draw(st.permutations(list(range(n))))
